@@ -380,7 +380,9 @@ class Merger:
                 "Processing element #{} at {}.".format(idx, path_next),
                 prefix="Merger::_merge_arrays_of_hashes:  ", data=ele)
 
-            if merge_mode is AoHMergeOpts.DEEP:
+            if (merge_mode is AoHMergeOpts.DEEP
+                and isinstance(ele, CommentedMap)
+            ):
                 if id_key in ele:
                     id_val = Nodes.tagless_value(ele[id_key])
                 else:
